@@ -82,6 +82,16 @@ def lean_canonical_pool(case: gen_ref.Case, cleavage_rule: str = 'trypsin', misc
     return {x for x in out[0].split(',') if x}
 
 
+def model_canonical_pool(case: gen_ref.Case, **kw) -> Set[str]:
+    """the canonical set the DEFINITIONS use: the Lean digest model of C10 on the proteome text and
+    the cds_start_NF flags (independent of the repository's digest); the repository's own pool only
+    when the driver is unavailable"""
+    pool = lean_canonical_pool(case, **kw)
+    if pool is None:
+        return canonical_pool(case, **kw)
+    return pool
+
+
 def units_by_tx(trace: List[dict]) -> Dict[str, List[Tuple[str, Dict[str, List[str]]]]]:
     out: Dict[str, List] = {}
     for r in trace:
